@@ -7,14 +7,14 @@
      core .. C table og W       its shared second half: C = coefficient lists of `bases`, table = per partition
                                 (circuit, qpd gate ids, cut ids), og = per partition the commuting groups
      sort_samples W             the samples in the order of the coefficient list
-     coeff_value total kappa w cs = (w/total) * (kappa * sign (prod cs))
+     coeff_value total kappa w cs = (w/total) * (kappa * sign (prod cs));  total_weight W == sum of the weights
      built .. joint l g e       circuit e was built from the joint map ids `joint`, partition l, group g
      spec_exp .. qc ids ms g    declarative subexperiment: measures_numbered (flat_map splice (assign ..)) (C14's words)
                                 ++ measurement_suffix (C11's words), registers old ++ [observable] ++ [qpd]
      optimise e                 e after the three reset passes (C12's optimise_resets)                                *)
 From Coq Require Import QArith Qabs Sorted Permutation.
 From CKT Require Import Common.Base Common.Circ Model.Decompose Model.Measurement Model.ResetPasses
-  Model.Weights Model.Experiments Proofs.DecomposeP Proofs.MeasurementP Proofs.ResetPassesP Proofs.ExperimentsP.
+  Model.Experiments Proofs.DecomposeP Proofs.MeasurementP Proofs.ResetPassesP Proofs.ExperimentsP.
 Close Scope Q_scope.
 
 (* ------------------------------------------------------------------------------------------------
@@ -65,11 +65,12 @@ Theorem c05_coeffs : forall gh gsx env C table og W out coeffs,
   length coeffs = length W /\
   Forall2 (fun s c => exists cs,
              chosen_coeffs C (s_ids s) = Ok cs /\
-             c = (coeff_value (qsum (map s_w W)) (kappa_all C) (s_w s) cs, s_t s))
-          (sort_samples W) coeffs.
+             c = (coeff_value (total_weight W) (kappa_all C) (s_w s) cs, s_t s))
+          (sort_samples W) coeffs /\
+  (total_weight W == sumQ (map s_w W))%Q.
 Proof.
   intros gh gsx env C table og W out coeffs H. pose proof (core_coeffs _ _ _ _ _ _ _ _ _ H) as HF.
-  split; [rewrite <- (Forall2_length' _ _ _ HF); apply sort_length|exact HF].
+  split; [rewrite <- (Forall2_length' _ _ _ HF); apply sort_length|split; [exact HF|apply total_weight_eq]].
 Qed.
 
 (* chosen_coeffs picks C_j[m_j] for every cut j (and only succeeds on a joint map of the right length and range) *)
@@ -80,15 +81,16 @@ Proof. exact chosen_coeffs_spec. Qed.
 (* hence sum |coeff| = kappa whenever no chosen product is 0 (weights non-negative, not all zero) *)
 Theorem c05_coeffs_sum : forall gh gsx env C table og W out coeffs,
   core gh gsx env C table og W = Ok (out, coeffs) ->
-  (0 < qsum (map s_w W))%Q ->
+  (0 < sumQ (map s_w W))%Q ->
   (forall s, In s W -> (0 <= s_w s)%Q) ->
-  (forall s cs, In s W -> chosen_coeffs C (s_ids s) = Ok cs -> ~ (qprod cs == 0)%Q) ->
-  (qsum (map (fun c => Qabs (fst c)) coeffs) == kappa_all C)%Q.
+  (forall s cs, In s W -> chosen_coeffs C (s_ids s) = Ok cs -> ~ (prodQ cs == 0)%Q) ->
+  (sumQ (map (fun c => Qabs (fst c)) coeffs) == kappa_all C)%Q.
 Proof.
   intros gh gsx env C table og W out coeffs H Ht Hw Hp.
   pose proof (core_coeffs _ _ _ _ _ _ _ _ _ H) as HF.
+  rewrite <- total_weight_eq in Ht.
   rewrite (sum_abs_coeffs C _ _ _ HF Ht).
-  - rewrite <- (qsum_perm _ _ (Permutation_map s_w (sort_perm W))). field.
+  - rewrite <- (qsum_perm _ _ (Permutation_map s_w (sort_perm W))), <- total_weight_eq. field.
     intros E. rewrite E in Ht. exact (Qlt_irrefl _ Ht).
   - intros s Hs. apply Hw. eapply Permutation_in; [apply Permutation_sym, sort_perm|exact Hs].
   - intros s cs Hs. apply Hp. eapply Permutation_in; [apply Permutation_sym, sort_perm|exact Hs].
@@ -97,7 +99,7 @@ Qed.
 (* the sign law *)
 Theorem c05_coeffs_sign : forall total kap w cs,
   (0 < w)%Q -> (0 < total)%Q -> (0 < kap)%Q ->
-  qsign (coeff_value total kap w cs) = qsign (qprod cs).
+  qsign (coeff_value total kap w cs) = qsign (prodQ cs).
 Proof. exact sign_coeff. Qed.
 
 Theorem c05_kappa_nonneg : forall C, (0 <= kappa_all C)%Q.
@@ -108,13 +110,13 @@ Proof. exact kappa_all_nonneg. Qed.
       weight prod_j |c_{j,m_j}| / kappa_j (what C04 proves about generate_qpd_weights(bases, inf) when no product
       falls under the 1e-14 cut-off).  Then sum W = 1 and every coefficient EQUALS prod_j c_{j,m_j}. *)
 Theorem c05_exact_total : forall C W,
-  (forall v, In v C -> ~ (kappa_of v == 0)%Q) -> exact_weights C W -> (qsum (map s_w W) == 1)%Q.
+  (forall v, In v C -> ~ (kappa_of v == 0)%Q) -> exact_weights C W -> (sumQ (map s_w W) == 1)%Q.
 Proof. exact exact_weights_total. Qed.
 
 Theorem c05_exact_coeff : forall C W s cs,
   (forall v, In v C -> ~ (kappa_of v == 0)%Q) -> exact_weights C W -> In s W ->
   chosen_coeffs C (s_ids s) = Ok cs ->
-  (coeff_value (qsum (map s_w W)) (kappa_all C) (s_w s) cs == qprod cs)%Q.
+  (coeff_value (total_weight W) (kappa_all C) (s_w s) cs == prodQ cs)%Q.
 Proof. exact exact_coeff. Qed.
 
 (* ------------------------------------------------------------------------------------------------
@@ -143,7 +145,7 @@ Theorem c05_counts_layout : forall gh gsx env C table og W out coeffs,
 Proof.
   intros gh gsx env C table og W out coeffs H.
   destruct (core_layout _ _ _ _ _ _ _ _ _ H) as (full & HF & Hout).
-  destruct (c05_coeffs _ _ _ _ _ _ _ _ _ H) as (Hlen & _).
+  destruct (c05_coeffs _ _ _ _ _ _ _ _ _ H) as (Hlen & _ & _).
   exists full. split; [exact Hout|].
   eapply Forall2_imp; [|exact HF]. intros lg le (H1 & H2 & H3).
   split; [exact H1|split; [|exact H3]]. now rewrite Hlen, <- (sort_length W).
@@ -242,7 +244,7 @@ Theorem c05_refuse_types : forall gh gsx env cenv qc d gs od N W,
 Proof. intros. repeat split; reflexivity. Qed.
 
 Theorem c05_refuse_num_samples : forall gh gsx env cenv circuits observables N W,
-  (N = NaN \/ N = NInf \/ exists q, N = Fin q /\ (q < 1)%Q) ->
+  (N = NNaN \/ N = NNegInf \/ exists q, N = NFin q /\ (q < 1)%Q) ->
   generate gh gsx env cenv circuits observables N W = Refused.
 Proof.
   intros gh gsx env cenv circuits observables N W H. apply generate_refuses_N.
@@ -282,14 +284,14 @@ Definition exBc' : mcirc :=
 Definition exD : list (nat * mcirc) := [(7, exA); (9, exBc')].
 Definition exOD : list (nat * res (list ogroup)) :=
   [ (7, Ok [mkOG [3; 1] [0; 1]]); (9, Ok [mkOG [0] []; mkOG [2] [0]]) ].
-Definition exW : wdict :=
-  [ ([0; 0], ((1 # 4)%Q, EXACT)); ([1; 1], ((1 # 2)%Q, SAMPLED)); ([0; 1], ((1 # 4)%Q, EXACT)) ].
-Definition exRun := generate 20 21 exEnv exCenv (CDict exD) (ODict exOD) PInf exW.
+Definition exW : sdict :=
+  [ ([0; 0], ((1 # 4)%Q, KExact)); ([1; 1], ((1 # 2)%Q, KSampled)); ([0; 1], ((1 # 4)%Q, KExact)) ].
+Definition exRun := generate 20 21 exEnv exCenv (CDict exD) (ODict exOD) NPosInf exW.
 
 Example c05_ex_runs :
   exists dd coeffs, exRun = Ok (OutDict dd, coeffs) /\
     (* order: the heaviest sample first, the tie [0;0] / [0;1] in dictionary order; kappa = 1 * 2 *)
-    Forall2 (fun c e => (fst c == fst e)%Q /\ snd c = snd e) coeffs [ (1%Q, SAMPLED); ((1 # 2)%Q, EXACT); ((- (1 # 2))%Q, EXACT) ] /\
+    Forall2 (fun c e => (fst c == fst e)%Q /\ snd c = snd e) coeffs [ (1%Q, KSampled); ((1 # 2)%Q, KExact); ((- (1 # 2))%Q, KExact) ] /\
     map fst dd = [7; 9] /\
     map (fun le => length (snd le)) dd = [3 * 1; 3 * 2] /\
     (* partition 7, sample 0 = maps (1, 1): cut 0 half 0 -> BMeas, cut 1 both halves -> (14, reset) on qubit 1 and
@@ -308,8 +310,8 @@ Proof.
 Qed.
 
 (* the hypotheses of c05_exact_coeff are satisfiable: all four joint maps with their exact probabilities *)
-Definition exWinf : wdict :=
-  [ ([0; 0], ((1 # 4)%Q, EXACT)); ([0; 1], ((1 # 4)%Q, EXACT)); ([1; 0], ((1 # 4)%Q, EXACT)); ([1; 1], ((1 # 4)%Q, EXACT)) ].
+Definition exWinf : sdict :=
+  [ ([0; 0], ((1 # 4)%Q, KExact)); ([0; 1], ((1 # 4)%Q, KExact)); ([1; 0], ((1 # 4)%Q, KExact)); ([1; 1], ((1 # 4)%Q, KExact)) ].
 
 Example c05_ex_exact_weights :
   (forall v, In v exCenv -> ~ (kappa_of v == 0)%Q) /\ exact_weights exCenv exWinf.
@@ -324,7 +326,7 @@ Qed.
 
 Example c05_ex_exact_run :
   exists dd coeffs,
-    generate 20 21 exEnv exCenv (CDict exD) (ODict exOD) PInf exWinf = Ok (OutDict dd, coeffs) /\
+    generate 20 21 exEnv exCenv (CDict exD) (ODict exOD) NPosInf exWinf = Ok (OutDict dd, coeffs) /\
     Forall2 (fun c p => (fst c == p)%Q) coeffs [(1 # 2); - (1 # 2); - (1 # 2); (1 # 2)]%Q.
 Proof. eexists; eexists. split; [vm_compute; reflexivity|]. repeat constructor. Qed.
 
@@ -337,16 +339,16 @@ Proof. repeat split; reflexivity. Qed.
 
 (* refusal classes are inhabited; a cut id that is not an index crashes (IndexError) *)
 Example c05_ex_refusals :
-  generate 20 21 exEnv exCenv (CDict exD) (ODict exOD) (Fin (1 # 2)) exW = Refused /\
-  generate 20 21 exEnv exCenv (CDict exD) (ODict exOD) NaN exW = Refused /\
-  generate 20 21 exEnv exCenv (CDict [(7, exA); (9, exBc)]) (ODict exOD) PInf exW = Refused /\
-  generate 20 21 exEnv exCenv (CSingle exA) (OPaulis (Ok [mkOG [3; 1] [0; 1]])) PInf exW = Refused /\
-  generate 20 21 exEnv exCenv (CDict exD) (OPaulis (Ok [])) PInf exW = Refused /\
+  generate 20 21 exEnv exCenv (CDict exD) (ODict exOD) (NFin (1 # 2)) exW = Refused /\
+  generate 20 21 exEnv exCenv (CDict exD) (ODict exOD) NNaN exW = Refused /\
+  generate 20 21 exEnv exCenv (CDict [(7, exA); (9, exBc)]) (ODict exOD) NPosInf exW = Refused /\
+  generate 20 21 exEnv exCenv (CSingle exA) (OPaulis (Ok [mkOG [3; 1] [0; 1]])) NPosInf exW = Refused /\
+  generate 20 21 exEnv exCenv (CDict exD) (OPaulis (Ok [])) NPosInf exW = Refused /\
   (* a joint map of the wrong length: strict_zip's ValueError *)
-  generate 20 21 exEnv exCenv (CDict [(7, exA)]) (ODict [(7, Ok [mkOG [3; 1] [0; 1]])]) PInf [([0], (1%Q, EXACT))] = Refused /\
+  generate 20 21 exEnv exCenv (CDict [(7, exA)]) (ODict [(7, Ok [mkOG [3; 1] [0; 1]])]) NPosInf [([0], (1%Q, KExact))] = Refused /\
   (* the only cut is labelled _1: one basis, map_ids[1] is an IndexError *)
-  generate 20 21 exEnv exCenv (CDict [(7, mkMC 1 0 [] [mkI (Qpd1 0 0 None L1) [0] []])]) (ODict [(7, Ok [mkOG [3] [0]])]) PInf
-           [([0], (1%Q, EXACT))] = Crashed.
+  generate 20 21 exEnv exCenv (CDict [(7, mkMC 1 0 [] [mkI (Qpd1 0 0 None L1) [0] []])]) (ODict [(7, Ok [mkOG [3] [0]])]) NPosInf
+           [([0], (1%Q, KExact))] = Crashed.
 Proof. vm_compute. repeat split; reflexivity. Qed.
 
 Print Assumptions c05_generate_is_core.
